@@ -285,10 +285,13 @@ def run(ctx):
         # explicit interval that covers all data, the same interval written (high, low) - accepted with a
         # warning - and intervals relative to the estimated contact point (own random stream: the main stream
         # of cases is not shifted)
-        spell = int(np.random.default_rng(ctx.seed * 31 + 7 * i).integers(0, 8))
+        spell = int(np.random.default_rng(ctx.seed * 31 + 7 * i).integers(0, 9))
         tipv = np.asarray(idnt0["tip position"])
         wide = (float(tipv.min()) - 2e-5, float(tipv.max()) + 2e-5)
-        range_spelling = {1: "explicit", 2: "inverted", 3: "relative", 4: "relative-inverted"}.get(spell, "default")
+        # ("relative-default": the default interval (0, 0) - the whole segment - with the range type switched to
+        # contact-point-relative: the interval is then shifted to (cp, cp) and still means the whole segment)
+        range_spelling = {1: "explicit", 2: "inverted", 3: "relative", 4: "relative-inverted",
+                          5: "relative-default"}.get(spell, "default")
         if range_spelling in ("explicit", "relative"):
             kw["range_x"] = wide
         elif range_spelling.endswith("inverted"):
